@@ -7,7 +7,36 @@ import time
 
 from common import VERIF, REPO, TARGET, Inconclusive
 
-GEN_DIR = os.path.join(VERIF, 'replay', 'src', 'generated')
+import hashlib
+import re
+import shutil
+
+
+def _crate_dir():
+    """The replay crate; for a non-default VERIF_REPO a private copy whose path dependency points there, so that
+    runs on scratch worktrees never touch the tracked crate."""
+    if REPO == '/repo':
+        return os.path.join(VERIF, 'replay')
+    d = os.path.join(TARGET, 'replay-src-' + hashlib.sha256(REPO.encode()).hexdigest()[:6])
+    src = os.path.join(VERIF, 'replay')
+    os.makedirs(os.path.join(d, 'src'), exist_ok=True)
+    for f in os.listdir(os.path.join(src, 'src')):
+        if f.endswith('.rs'):
+            text = open(os.path.join(src, 'src', f)).read()
+            text = text.replace('#[path = "../../reflex/src/lib.rs"]', '#[path = "%s"]' % os.path.join(VERIF, 'reflex', 'src', 'lib.rs'))
+            dst = os.path.join(d, 'src', f)
+            if not os.path.exists(dst) or open(dst).read() != text:
+                open(dst, 'w').write(text)
+    toml = open(os.path.join(src, 'Cargo.toml')).read()
+    toml = re.sub(r'penne = \{ path = "[^"]*"', 'penne = { path = "%s"' % REPO, toml)
+    dst = os.path.join(d, 'Cargo.toml')
+    if not os.path.exists(dst) or open(dst).read() != toml:
+        open(dst, 'w').write(toml)
+    return d
+
+
+CRATE = _crate_dir()
+GEN_DIR = os.path.join(CRATE, 'src', 'generated')
 
 
 def default_expr(ty):
@@ -68,7 +97,7 @@ def gen_error_codes(defs):
 
 STUBS = {
     'error_codes': 'pub fn run() { eprintln!("not generated"); std::process::exit(2); }\n',
-    'value_types': 'pub fn run(_args: &[String]) { eprintln!("not generated"); std::process::exit(2); }\n',
+    'value_types': 'pub fn run(_args: &[String]) { eprintln!("not generated"); std::process::exit(2); }\npub fn run_resolver() { eprintln!("not generated"); std::process::exit(2); }\npub fn run_lint() { eprintln!("not generated"); std::process::exit(2); }\n',
 }
 
 
@@ -93,19 +122,18 @@ def write_generated(mods):
 
 
 def build(release=False):
-    lock = os.path.join(VERIF, 'replay', 'Cargo.lock')
-    src_lock = open(os.path.join(REPO, 'Cargo.lock')).read()
+    lock = os.path.join(CRATE, 'Cargo.lock')
     if not os.path.exists(lock):
-        open(lock, 'w').write(src_lock)
-    env = dict(os.environ, CARGO_NET_OFFLINE='true', CARGO_TARGET_DIR=os.path.join(TARGET, 'replay'))
+        open(lock, 'w').write(open(os.path.join(REPO, 'Cargo.lock')).read())
+    tdir = 'replay' if REPO == '/repo' else 'replay-' + hashlib.sha256(REPO.encode()).hexdigest()[:6]
+    env = dict(os.environ, CARGO_NET_OFFLINE='true', CARGO_TARGET_DIR=os.path.join(TARGET, tdir))
     cmd = ['cargo', 'build', '--offline', '--quiet'] + (['--release'] if release else [])
     t = time.time()
-    p = subprocess.run(cmd, cwd=os.path.join(VERIF, 'replay'), env=env, stdout=subprocess.PIPE,
-                       stderr=subprocess.PIPE, text=True)
+    p = subprocess.run(cmd, cwd=CRATE, env=env, stdout=subprocess.PIPE, stderr=subprocess.PIPE, text=True)
     if p.returncode != 0:
         errs = [l for l in p.stderr.split('\n') if l.startswith('error')]
         raise Inconclusive('pv_replay does not build: %s\n%s' % (errs[:3], p.stderr[-2000:]))
-    return os.path.join(TARGET, 'replay', 'release' if release else 'debug', 'pv_replay'), time.time() - t
+    return os.path.join(TARGET, tdir, 'release' if release else 'debug', 'pv_replay'), time.time() - t
 
 
 def run(binary, args, stdin=None, timeout=300):
